@@ -34,9 +34,9 @@ fn abs_val(ring: &str, v: &Value) -> f64 {
 
 fn gen_entry(rng: &mut Rng, ring: &str, unit: bool) -> Value {
     match (ring, unit) {
-        // powers of two only: denominators stay tiny, machine rationals cannot overflow
-        ("Q", true) => json!(*rng.pick(&[[1, 1], [-1, 1], [2, 1], [-2, 1], [1, 2], [-1, 2]])),
-        ("Q", false) => json!(*rng.pick(&[[1, 1], [-1, 1], [1, 1], [2, 1], [-1, 2]])),
+        // small numerators and denominators; an i64 overflow that still happens is skipped, not reported
+        ("Q", true) => json!(*rng.pick(&[[1, 1], [-1, 1], [2, 1], [-2, 1], [1, 2], [-1, 2], [3, 1], [-1, 3], [3, 2], [2, 3]])),
+        ("Q", false) => json!(*rng.pick(&[[1, 1], [-1, 1], [1, 1], [2, 1], [-1, 2], [1, 3], [-3, 1], [5, 1], [2, 3]])),
         ("Z", false) => json!(*rng.pick(&[1i64, -1, 1, -1, 2, -2, 3])),
         ("ZH", false) => <yui::poly::Poly<'H', i64> as SimRing>::gen(rng, 0),
         (_, true) => gen_any(rng, ring, 2),
